@@ -337,7 +337,20 @@ void op_incl_all(const Step& s) {
 void op_dump(const Step& s) {
 	FAH& a = H(s, 0); VATA::Serialization::TimbukSerializer ser;
 	api_begin(); std::string text = a.aut->DumpToString(ser); api_end(); observe(text);
-	Blob b; b.bytes = text; b.kind = "fa"; b.model_lit = mdl::to_lit(a.model); b.owner = s.client; blobs().push_back(b);
+	Blob b; b.bytes = text; b.kind = "fa"; b.model_lit = mdl::to_lit(a.model); b.owner = s.client;
+	// the start states as the automaton itself reports them (the only view of a word automaton that does not go through its dump)
+	api_begin(); api_site("fa_dump:GetStartStates");
+	for (const StateType& q : a.aut->GetStartStates()) b.api_starts.insert(std::to_string(q));
+	api_end(); b.has_starts = true;
+	if (armed("C13")) {
+		count(c_oracle_evals); mdl::Desc d; std::string err; FA shown;
+		if (!mdl::parse_timbuk_ref(text, d, &err)) violation("C13.dump-well-formed", "fa_dump", err);
+		else if (mdl::desc_to_fa(d, "", shown)) {
+			std::set<std::string> ds; for (long q : shown.starts) ds.insert(std::to_string(q));
+			if (ds != b.api_starts) { std::string x, y; for (auto& q : b.api_starts) x += " " + q; for (auto& q : ds) y += " " + q; violation("C13.dump-shows-start-states", "fa_dump", "the start states of the automaton are {" + x + " } but its dump has start rules for {" + y + " }\n  dump: " + text); }
+		}
+	}
+	blobs().push_back(b);
 }
 
 void abort_client(int c, uint64_t seed) {
